@@ -478,7 +478,8 @@ def run_sbs_blocks(ctx, rep, hook, mdl):
         case, ans = idx[k], impl[k]
         ci, m, p, al, wl, wr, a, c = case
         fl, fr = cfgs[ci][1]
-        replay = dict(kind="hook-sbs", cfg=cfgs[ci][0], req=reqs[k], case=dict(m=m, p=p, al=al, wl=wl, wr=wr, a=a, c=c))
+        replay = dict(kind="hook-sbs", cfg=cfgs[ci][0], req=reqs[k], case=dict(m=m, p=p, al=al, wl=wl, wr=wr, a=a, c=c),
+                      fl=fl.parts, fr=fr.parts)
         got = parsed[k]
         rep.count(f"sbs_block:shape:{m}x{p}")
         if got is None:
@@ -510,23 +511,34 @@ def run_sbs_blocks(ctx, rep, hook, mdl):
                 mg = [(unhxs(f[2 + 2 * t]), unhxs(f[3 + 2 * t])) for t in range(n)]
                 ok = mg == gut and [int(f[2 + 2 * n]), int(f[3 + 2 * n])] == [left, right]
             rep.corr_case("linenum.sbs_block", ok, dict(replay, impl_gutters=gut, impl_counters=[left, right], model=mm))
-        # direct oracle
-        want = true_sbs_rows(a, c, al, rwl, rwr)
-        bad = None
-        if len(want) != len(rows):
-            bad = f"{len(rows)} rows painted, {len(want)} expected"
-        else:
-            for t, ((lg, rg), (wn, wp)) in enumerate(zip(gut, want)):
-                ln, rn = gutter_numbers(fl, fr, lg, rg)
-                exp_l = {wn} if any(q[0] == "ph" and q[1] == "nm" for q in fl.parts) else set()
-                exp_r = {wp} if any(q[0] == "ph" and q[1] == "np" for q in fr.parts) else set()
-                if ln != exp_l or rn != exp_r:
-                    bad = f"row {t}: shows left={ln} right={rn}, true left={wn} right={wp}"
-                    break
-            if bad is None and (left, right) != (a + m, c + p):
-                bad = f"counters after the subhunk ({left},{right}) != ({a + m},{c + p})"
+        bad = sbs_oracle(fl, fr, a, c, m, p, al, rwl, rwr, rows, gut, left, right)
         if bad:
             rep.violation("sbs_block:numbers-wrong", bad, dict(replay, rows=rows))
+
+
+def sbs_oracle(fl, fr, a, c, m, p, al, rwl, rwr, rows, gut, left, right):
+    """The property on one painted subhunk (side-by-side): None or a description of the failure."""
+    want = true_sbs_rows(a, c, al, rwl, rwr)
+    if len(want) != len(rows):
+        return f"{len(rows)} rows painted, {len(want)} expected"
+    for t, ((lg, rg), (wn, wp)) in enumerate(zip(gut, want)):
+        ln, rn = gutter_numbers(fl, fr, lg, rg)
+        exp_l = {wn} if any(q[0] == "ph" and q[1] == "nm" for q in fl.parts) else set()
+        exp_r = {wp} if any(q[0] == "ph" and q[1] == "np" for q in fr.parts) else set()
+        if ln != exp_l or rn != exp_r:
+            return f"row {t}: shows left={ln} right={rn}, true left={wn} right={wp}"
+    if (left, right) != (a + m, c + p):
+        return f"counters after the subhunk ({left},{right}) != ({a + m},{c + p})"
+    return None
+
+
+def parse_sbs_answer(ans):
+    f = ans.split()
+    rows, pos = parse_rows(f, 1)
+    rwl, pos = parse_counts(f, pos)
+    rwr, pos = parse_counts(f, pos)
+    left, right, lw, rw, pl, pr = (int(x) for x in f[pos:pos + 6])
+    return rows, rwl, rwr, left, right, lw, rw, pl, pr
 
 
 # ------------------------------------------------------------------ whole hunks through a real Painter
@@ -1077,6 +1089,15 @@ def replay(ctx, rep, obj):
         ans = hook.ask(reqs, sticky=[0] if "cfg" in case else [])
         rep.case(key=("replay", repr(reqs)), nontrivial=True, sample=dict(reqs=reqs, impl=ans))
         rep.notes["replay_answers"] = ans
+        if kind == "hook-sbs" and "fl" in case and ans and ans[-1].startswith("ok "):
+            cc = case["case"]
+            fl, fr = Fmt([tuple(q) for q in case["fl"]]), Fmt([tuple(q) for q in case["fr"]])
+            rows, rwl, rwr, left, right, lw, rw, pl, pr = parse_sbs_answer(ans[-1])
+            al = [tuple(x) for x in cc["al"]]
+            bad = sbs_oracle(fl, fr, cc["a"], cc["c"], cc["m"], cc["p"], al, rwl, rwr, rows,
+                             decode_sbs(rows, lw, rw, pl, fl, fr), left, right)
+            if bad:
+                rep.violation("sbs_block:numbers-wrong", bad, case)
         # re-evaluate with the full machinery as well (the stored case is part of the generated space)
         run(ctx, rep)
     else:
